@@ -16,6 +16,11 @@ type Config struct {
 	MaxBody  int // largest leaf body in bytes (default 2048); bodies above 1.5 KiB are built by Expand
 	LargePct int // percentage of leaves that take a large size class (default 4)
 
+	// UnclosedNested: a multipart that is a part of another multipart sometimes has no close delimiter of its own (it
+	// is ended by the next delimiter of the enclosing multipart, as truncating gateways produce them): its last part
+	// ends where the multipart ends.
+	UnclosedNested bool
+
 	// Steering switches for listed known findings of gluon (see /verif/known_findings.json); false = full domain.
 	// A tree on which a switch changed something carries the label "steered:<feature>".
 	NoDelimiterPadding    bool // never write RFC 2046 transport padding (white space) behind a delimiter line
@@ -55,18 +60,28 @@ func Gen(cfg Config) *rapid.Generator[*Tree] {
 // Draw draws one well-formed tree.
 func Draw(t *rapid.T, cfg Config) *Tree {
 	g := &gen{t: t, cfg: cfg.norm(), labels: map[string]bool{}}
+
+	// Trees with unclosed nested multiparts (Config.UnclosedNested, one tree in five) are otherwise plain about their
+	// delimiters: no boundary that is a prefix of another one and no boundary-like text lines. What such lines mean
+	// when the close delimiter they resemble is missing is not defined by anything; gluon's reading of them differs
+	// from its reading of the closed form, which is not held against it.
+	if g.cfg.UnclosedNested && rapid.IntRange(0, 4).Draw(t, "unclosedTree") == 0 {
+		g.plainDelims = true
+	}
+
 	root := g.entity(1, true, nil, nil, false)
 
 	return finish(root, g.labels)
 }
 
 type gen struct {
-	t          *rapid.T
-	cfg        Config
-	nodes      int
-	bseq       int
-	labels     map[string]bool
-	boundaries []string
+	t           *rapid.T
+	cfg         Config
+	nodes       int
+	bseq        int
+	labels      map[string]bool
+	boundaries  []string
+	plainDelims bool // this tree may contain unclosed nested multiparts (see Draw)
 }
 
 func (g *gen) intn(lo, hi int, label string) int {
@@ -939,7 +954,7 @@ func (g *gen) boundary() string {
 		b = fmt.Sprintf("simple boundary %d", seq)
 		g.label("boundary-space")
 	case 5:
-		if len(g.boundaries) > 0 {
+		if len(g.boundaries) > 0 && !g.plainDelims {
 			b = g.boundaries[g.intn(0, len(g.boundaries)-1, "bprev")] + fmt.Sprintf("x%d", seq)
 			g.label("boundary-prefix-of-inner")
 		} else {
@@ -981,6 +996,11 @@ func (g *gen) textLines(n int, avoid, fakes []string) [][]byte {
 		switch {
 		case k >= 22 && k <= 26 && len(fakes) > 0:
 			b := fakes[g.intn(0, len(fakes)-1, "fakeb")]
+			if g.plainDelims {
+				add("just a line")
+				continue
+			}
+
 			g.label("fake-boundary")
 
 			switch g.intn(0, 9, "fakekind") {
@@ -1249,6 +1269,11 @@ func (g *gen) entity(level int, isMsg bool, parent *Node, anc []string, inDigest
 	case Multipart:
 		inner := append(append([]string{}, anc...), n.Boundary)
 
+		if g.plainDelims && parent != nil && parent.Kind == Multipart && !isMsg && g.pct(40, "noclose") {
+			n.NoClose = true
+			g.label("nested-multipart-unclosed")
+		}
+
 		if g.pct(30, "preamble") {
 			g.label("preamble")
 
@@ -1274,7 +1299,9 @@ func (g *gen) entity(level int, isMsg bool, parent *Node, anc []string, inDigest
 			}
 		}
 
-		if g.pct(55, "epilogue") {
+		if n.NoClose {
+			// nothing behind the last part
+		} else if g.pct(55, "epilogue") {
 			n.Epilogue = []byte{}
 
 			if g.pct(50, "epiloguetext") {
